@@ -118,6 +118,11 @@ func ParseOne(reader *bufio.Reader) (*ChangelogEntry, error) {
 	changeLog.Arguments = map[string]string{}
 
 	for _, entry := range strings.Split(options, ",") {
+		if trim(entry) == "" {
+			/* "zero or more keyword=value items": nothing behind the
+			 * semicolon, or behind a comma, is not an item. */
+			continue
+		}
 		key, value := partition(trim(entry), "=")
 		changeLog.Arguments[trim(key)] = trim(value)
 	}
